@@ -65,14 +65,45 @@ Definition errkind_eqb (a b : errkind) : bool :=
   | _, _ => false
   end.
 
-Definition ascii_only (s : bytes) : bool := forallb (fun c => c <? 128)%N s.
+(* well-formed UTF-8 as core::str::from_utf8 accepts it (no overlong forms, no surrogates,
+   nothing above U+10FFFF): String::from_utf8_lossy is the identity exactly on these *)
+Definition inr (lo hi x : N) : bool := ((lo <=? x) && (x <=? hi))%N.
+Fixpoint utf8_valid (s : bytes) : bool :=
+  match s with
+  | [] => true
+  | a :: t =>
+    if (a <? 128)%N then utf8_valid t
+    else match t with
+    | [] => false
+    | b :: t2 =>
+      if inr 194 223 a then inr 128 191 b && utf8_valid t2
+      else match t2 with
+      | [] => false
+      | c :: t3 =>
+        if ((a =? 224)%N && inr 160 191 b) || (inr 225 236 a && inr 128 191 b) ||
+           ((a =? 237)%N && inr 128 159 b) || (inr 238 239 a && inr 128 191 b)
+        then inr 128 191 c && utf8_valid t3
+        else match t3 with
+        | [] => false
+        | d :: t4 =>
+          if ((a =? 240)%N && inr 144 191 b) || (inr 241 243 a && inr 128 191 b) ||
+             ((a =? 244)%N && inr 128 143 b)
+          then inr 128 191 c && inr 128 191 d && utf8_valid t4
+          else false
+        end
+      end
+    end
+  end.
 
 (* [lossy] = the implementation value went through String::from_utf8_lossy (RespParser):
-   payloads of simple strings / errors are compared only when the model's bytes are ASCII *)
+   payloads of simple strings / errors are compared whenever the model's bytes are valid
+   UTF-8 (the conversion is then the identity); for invalid UTF-8 the replacement by U+FFFD
+   is not modelled (the harness compares RespParser's payload with std's from_utf8_lossy of
+   RespCodec's bytes instead) *)
 Fixpoint resp_eqb (lossy : bool) (m i : resp) : bool :=
   match m, i with
   | RSimple x, RSimple y | RError x, RError y =>
-      if lossy && negb (ascii_only x) then true else bytes_eqb x y
+      if lossy && negb (utf8_valid x) then true else bytes_eqb x y
   | RInt x, RInt y => (x =? y)%Z
   | RNilBulk, RNilBulk | RNilArr, RNilArr => true
   | RBulk x, RBulk y => bytes_eqb x y
